@@ -159,7 +159,9 @@ impl DeltaReceiver {
         let num_parts;
         {
             let current: &mut CurrentDelta = self.current.as_mut().unwrap();
-            if snap.delta_tick != current.delta_tick
+            // `current.delta_tick` is absolute, the message carries it
+            // relative to `tick`.
+            if snap.tick.wrapping_sub(snap.delta_tick) != current.delta_tick
                 || snap.num_parts != current.num_parts
                 || snap.crc != current.crc
             {
